@@ -74,6 +74,7 @@ MustReject(e, home, marker) ==
   \/ e.calls
   \/ home # "a" /\ e.unexp
   \/ marker = "Value" /\ e.iface
+  \/ marker = "InterfaceValue:Big" /\ e.go # "@HeldBig"        \* only HeldBig implements Big (ST has Meth only, Small lacks B)
 RejectReason(e, home, marker) == IF e.calls \/ (marker = "Value" /\ e.iface) THEN "sig" ELSE "value-access"
 
 ValProg(e, home, marker, d) ==
@@ -87,6 +88,10 @@ FamilyE(p, depth) ==
     \/ depth >= 2 /\ \E e \in Depth2 : p = ValProg(e, home, "Value", 2)
     \/ depth >= 3 /\ \E e \in Depth3 : p = ValProg(e, home, "Value", 3)
     \/ \E e \in {x \in Atoms : x.sort \in {"int", "@ST", "*@ST", "@MyInt"}} : p = ValProg(e, home, "InterfaceValue", 1)
+    \* interface values whose expression has an interface type: HeldBig has both methods of Big, HeldSmall only one
+    \/ p = ValProg(Ex("@HeldBig", "@Big", FALSE, FALSE, TRUE, FALSE), home, "InterfaceValue:Big", 1)
+    \/ p = ValProg(Ex("@HeldSmall", "@Small", FALSE, FALSE, TRUE, FALSE), home, "InterfaceValue:Big", 1)
+    \/ p = ValProg(Ex("@ExpStruct", "@ST", FALSE, FALSE, FALSE, FALSE), home, "InterfaceValue:Big", 1)
 
 CaseE(P) ==
   LET v == P.value
